@@ -47,6 +47,7 @@ type lgSched struct {
 	Interval int      `json:"interval"`
 	Cache    bool     `json:"cache"`
 	Sync     *bool    `json:"sync"` // flush-on-ack (default true)
+	Cancel   bool     `json:"cancel"` // injected upload failures are cancellations of the producer's own request context
 	MBs      []int    `json:"mbs"`
 	Steps    []lgStep `json:"steps"`
 }
@@ -219,6 +220,13 @@ func (s *lgS3) put(ctx context.Context, kind, key string, body []byte) error {
 	case "skip":
 		ev["ev"] = map[string]string{"seg": "SkipSegment", "idx": "SkipIndex"}[kind]
 		s.r.emit(ev)
+		return context.Canceled
+	case "ctxerr": // the caller's context was cancelled while the upload was in flight: nothing is stored
+		ev["ev"], ev["ok"] = map[string]string{"seg": "PutSegment", "idx": "PutIndex"}[kind], false
+		s.r.emit(ev)
+		if err := ctx.Err(); err != nil {
+			return err
+		}
 		return context.Canceled
 	default:
 		ev["ev"], ev["ok"] = map[string]string{"seg": "PutSegment", "idx": "PutIndex"}[kind], false
@@ -496,6 +504,7 @@ func lgRunSchedule(t *testing.T, sc lgSched) (lines []map[string]any, hits map[s
 			}
 		}
 		sent := map[string]int{}
+		cancels := map[string]context.CancelFunc{}
 		ref := map[int64][]byte{} // base offset -> bytes of the batch currently at that offset
 		var refMu sync.Mutex
 		var wg sync.WaitGroup
@@ -715,7 +724,12 @@ func lgRunSchedule(t *testing.T, sc lgSched) (lines []map[string]any, hits map[s
 					}
 					r.amu.Unlock()
 				}()
-				ctx := context.WithValue(context.Background(), lgActorKey{}, lgActor{p: p, inc: inc})
+				cctx, cancel := context.WithCancel(context.Background())
+				defer cancel()
+				r.amu.Lock()
+				cancels[p] = cancel
+				r.amu.Unlock()
+				ctx := context.WithValue(cctx, lgActorKey{}, lgActor{p: p, inc: inc})
 				req := kmsg.NewPtrProduceRequest()
 				req.Acks, req.TimeoutMillis = -1, 1000
 				rt := kmsg.NewProduceRequestTopic()
@@ -783,6 +797,24 @@ func lgRunSchedule(t *testing.T, sc lgSched) (lines []map[string]any, hits map[s
 			}
 		}
 		pendingShape := map[string][3]any{}
+		// failOutcome: a plain S3 error, or (per schedule) the producer's request context is cancelled first
+		// (only when that producer's upload really is parked at the gate: under steering divergence the key may
+		// belong to nobody, and cancelling a request that merely waits for another flush is a step the model lacks)
+		failOutcome := func(p, key string) string {
+			if !sc.Cancel {
+				return "fail"
+			}
+			synctest.Wait()
+			r.amu.Lock()
+			c := cancels[p]
+			_, parked := r.arrived[key]
+			r.amu.Unlock()
+			if !parked || c == nil {
+				return "fail"
+			}
+			c()
+			return "ctxerr"
+		}
 
 		// The model starts a producer's next request only after the previous one returned. When steering
 		// diverged and the real request is still parked, run it to completion first (uploads succeed).
@@ -838,9 +870,17 @@ func lgRunSchedule(t *testing.T, sc lgSched) (lines []map[string]any, hits map[s
 			case "FlushWake":
 				// no gate: a Flush waiter re-acquires l.mu inside Cond.Wait as soon as the flusher broadcasts
 			case "UpSeg":
-				r.release(st.P+":upseg", map[bool]string{true: "ok", false: "fail"}[st.Ok])
+				if st.Ok {
+					r.release(st.P+":upseg", "ok")
+				} else {
+					r.release(st.P+":upseg", failOutcome(st.P, st.P+":upseg"))
+				}
 			case "UpIdx":
-				r.release(st.P+":upidx", map[bool]string{true: "ok", false: "fail"}[st.Ok])
+				if st.Ok {
+					r.release(st.P+":upidx", "ok")
+				} else {
+					r.release(st.P+":upidx", failOutcome(st.P, st.P+":upidx"))
+				}
 			case "UpSkip":
 				r.release(st.P+":up"+st.Which, "skip")
 			case "UpDone":
